@@ -66,7 +66,7 @@ CHECKS = {
     ),
     "C10": (
         "exploration",
-        "output self-consistency monitor (unique names, numbering without holes, non-increasing sizes, write order, chromosome.list / chr_report CSV lines from the real AssemblyStats) + designed names (name tags, unlocs under their chromosome, homologues sharing a number)",
+        "output self-consistency monitor (unique names, numbering without holes, non-increasing sizes, write order, chromosome.list / chr_report CSV lines from the real AssemblyStats) + designed names (name tags, unlocs under their chromosome, homologues sharing a number); the result asked for a second time from the same object; CLI leg: a chromosome list file with the right lines beside every curated assembly file that has chromosomes (monitor on write_chr_csv_files)",
         "Each completed designed tagging is checked for the naming and ordering rules of the statement; a separate 'vanishing chromosome' shard reproduces known finding D9 and matches only that mechanism signature there.",
         "Input names outside the generated namespaces; haplotig order under either length reading; hole checks only when every unloc/haplotig piece holds contig bases.",
         "3-C10",
@@ -122,7 +122,7 @@ CHECKS = {
     ),
     "C17": (
         "exploration",
-        "differential observer: byte equality of all output files between a reference run and runs differing in one axis (PYTHONHASHSEED subprocesses, cwd, stream buffer, cache cold/warm, earlier AND later invocations in the same process, fresh interpreter); tag-noise cases (several special tags per scaffold) under 6-12 hash seeds; FASTA/AGP/TPF input leg; asm-format; the 12 specimens",
+        "differential observer: byte equality of all output files between a reference run and runs differing in one axis (PYTHONHASHSEED subprocesses, cwd, stream buffer, cache cold/warm, earlier AND later invocations in the same process, other content at the same path earlier in the process, relative paths from another directory with out-of-date caches, fresh interpreter with and without -O); tag-noise cases (several special tags per scaffold) under 6-12 hash seeds; FASTA/AGP/TPF input leg; asm-format; the 12 specimens",
         "Each generated case (tag-rich designs incl. two haplotypes) and each specimen is run along every axis and all files compared byte for byte.",
         "Same output directory for all runs of a case, so absolute paths in logs coincide by construction.",
         "3-C17",
